@@ -3,11 +3,11 @@
 WT=$1; SD=$2
 export CARGO_TARGET_DIR=$WT/target CARGO_NET_OFFLINE=true
 cd $WT || exit 2
-git stash -q 2>/dev/null; git stash drop -q 2>/dev/null; git checkout -q -- . ; git clean -fdq -e target
+git checkout -q -- . ; git clean -fdq -e target   # never git stash: the stash is shared by all worktrees of /repo
 DEMO=$(ls $SD/demo/*.rs $SD/*.rs 2>/dev/null | head -1)
 cp $DEMO crates/cgt-core/tests/seed_demo.rs
-echo "== demo WITHOUT change"; cargo test --offline -q -p cgt-core --test seed_demo 2>&1 | grep -E "^test result|FAILED|panicked" | head -5
+echo "== demo WITHOUT change"; cargo test --offline -q -p cgt-core --test seed_demo 2>&1 | grep -E "^test result" | head -3
 git apply $SD/patch.diff || { echo "patch does not apply"; exit 2; }
-echo "== demo WITH change"; cargo test --offline -q -p cgt-core --test seed_demo 2>&1 | grep -E "^test result|FAILED|panicked" | head -5
+echo "== demo WITH change"; cargo test --offline -q -p cgt-core --test seed_demo 2>&1 | grep -E "^test result" | head -3
 rm crates/cgt-core/tests/seed_demo.rs
 echo "== suite WITH change"; cargo test --workspace --offline --no-fail-fast 2>&1 | grep -E "^test result" | awk '{p+=$4; f+=$6} END {print "passed",p,"failed",f}'
